@@ -469,6 +469,16 @@ func (m *Encoder) encodeDecimal(v reflect.Value) error {
 
 func (m *Encoder) encodeWithAnnotation(v reflect.Value, fields []field) error {
 	original := v
+	hasValue := false
+	for _, field := range fields {
+		if !field.annotations {
+			hasValue = true
+		}
+	}
+	if !hasValue {
+		// Encoding the struct itself again would never terminate.
+		return fmt.Errorf("ion: struct %v has annotations but no field for the annotated value", v.Type().String())
+	}
 	for _, field := range fields {
 		if field.annotations {
 			annotations, err := findSubvalue(original, &field)
